@@ -164,7 +164,7 @@ func checkFeatOne(c FeatCase) fw.Outcome {
 		}
 	}
 	out.NonTrivial = multi || dep
-	if compare(&out, "if-feature pruning", c.Mods, pruned, sgc.Opts{Features: on}, sgc.Opts{Features: on}, canon.Opts{NoFeatures: true}) {
+	if compare(&out, "if-feature pruning", c.Mods, pruned, sgc.Opts{Features: on}, sgc.Opts{Features: on}, canon.Opts{NoFeatures: true, XPathListing: true}) {
 		// the enabled features reported per module are exactly the effectively enabled ones
 		res := sgc.Compile(c.Mods, sgc.Opts{Features: on})
 		for name, m := range res.MS.Modules() {
@@ -282,7 +282,7 @@ func checkInherit(c InheritCase) fw.Outcome {
 		walk(m.Nodes, 0, false)
 	}
 	out.NonTrivial = depth2
-	compare(&out, "explicit config/status", c.Mods, sg.Explicit(c.Mods), sgc.Opts{Features: sgc.AllFeatures{}}, sgc.Opts{Features: sgc.AllFeatures{}}, canon.Opts{})
+	compare(&out, "explicit config/status", c.Mods, sg.Explicit(c.Mods), sgc.Opts{Features: sgc.AllFeatures{}}, sgc.Opts{Features: sgc.AllFeatures{}}, canon.Opts{XPathListing: true})
 	return out
 }
 
@@ -393,6 +393,10 @@ func buildIllegal(kind string, sub int, legal bool) []*sg.Mod {
 		if legal {
 			u.Status = "deprecated"
 		}
+		if v(2) == 1 {
+			// an earlier, legal use of the same grouping: every reference is checked, not the first only
+			top.Kids = append(top.Kids, &sg.Node{Kind: "container", Name: "early", Status: "obsolete", Kids: []*sg.Node{{Kind: "uses", Name: ref("g")}}})
+		}
 		top.Kids = append(top.Kids, u)
 	case "current-type-obsolete-typedef", "deprecated-type-obsolete-typedef":
 		m.Typedefs = []*sg.Typedef{{Name: "t1", Type: &sg.TypeSpec{Name: "string"}, Status: "obsolete"}}
@@ -403,6 +407,16 @@ func buildIllegal(kind string, sub int, legal bool) []*sg.Mod {
 		if legal {
 			l.Status = "obsolete"
 		}
+		switch v(4) {
+		case 1:
+			// an earlier, legal reference to the same typedef: every reference is checked, not the first only
+			top.Kids = append(top.Kids, &sg.Node{Kind: "leaf", Name: "early", Status: "obsolete", Type: &sg.TypeSpec{Name: ref("t1")}})
+		case 2:
+			top.Kids = append(top.Kids, &sg.Node{Kind: "container", Name: "early", Status: "obsolete", Kids: []*sg.Node{{Kind: "leaf-list", Name: "ll", Type: &sg.TypeSpec{Name: "union", Members: []*sg.TypeSpec{{Name: "int8"}, {Name: ref("t1")}}}}}})
+		case 3:
+			m.Groupings = []*sg.Grouping{{Name: "gt", Kids: []*sg.Node{{Kind: "leaf", Name: "gl", Type: &sg.TypeSpec{Name: ref("t1")}, Status: "obsolete"}}}}
+			top.Kids = append(top.Kids, &sg.Node{Kind: "uses", Name: "gt"})
+		}
 		top.Kids = append(top.Kids, l)
 	case "current-iffeature-deprecated-feature":
 		m.Features = []*sg.Feature{{Name: "f", Status: "deprecated"}}
@@ -410,6 +424,11 @@ func buildIllegal(kind string, sub int, legal bool) []*sg.Mod {
 		l.IfFeatures = []string{ref("f")}
 		if legal {
 			l.Status = "deprecated"
+		}
+		if v(2) == 1 {
+			e := leaf("early")
+			e.Status, e.IfFeatures = "deprecated", []string{ref("f")}
+			top.Kids = append(top.Kids, e)
 		}
 		top.Kids = append(top.Kids, l)
 	case "current-base-deprecated-identity":
